@@ -5,10 +5,12 @@ import (
 	"flag"
 	"fmt"
 	"io"
+	"os"
 	"reflect"
 	"sort"
 	"strings"
 	"testing"
+	"time"
 
 	spflag "github.com/spf13/pflag"
 	"github.com/vimeo/dials"
@@ -50,6 +52,20 @@ type C12Case struct {
 	// harness owns the FlagSet, hands it to NewSetWithFlagSet /
 	// NewDefaultSetWithFlagSet and parses it before Value().
 	Parser string `json:"parser,omitempty"`
+	// FlagSet says which FlagSet the set under test is built on (standard flag
+	// source only): "" = a private one (NewSetWithArgs); "cmdline" =
+	// NewCmdLineSet on flag.CommandLine, which is swapped for a fresh FlagSet
+	// (with os.Args) for the duration of the case and restored; "literal" = a
+	// harness-owned FlagSet in a &Set{Flags, ParseFunc, NameCfg} literal, which
+	// registers its flags lazily inside Value().  On a non-private FlagSet
+	// some flag names already exist when the set under test registers:
+	// PreReg lists the leaves whose flag the program registered itself (with
+	// the flag package's own Bool/Int/Int64/Uint/Uint64/Float64/String/Duration),
+	// EarlierSet says an earlier dials Set over the same config type was
+	// built on the same FlagSet first (and is asked for its value first).
+	FlagSet    string   `json:"flagset,omitempty"`
+	PreReg     []string `json:"prereg,omitempty"`
+	EarlierSet bool     `json:"earlier_set,omitempty"`
 }
 
 // ------------------------------------------------------------ generation
@@ -285,6 +301,21 @@ func genC12(src string) func(t *rapid.T) C12Case {
 			c.Parser = rapid.SampledFrom([]string{"source", "program", "source", "flagset", "source", "source"}).Draw(t, "parser")
 		} else {
 			c.Parser = rapid.SampledFrom([]string{"source", "program", "source"}).Draw(t, "parser")
+			c.FlagSet = rapid.SampledFrom([]string{"", "cmdline", "", "literal", "", ""}).Draw(t, "flagset")
+			if c.FlagSet != "" {
+				c.EarlierSet = rapid.Bool().Draw(t, "earlier_set")
+				for _, l := range leaves {
+					if _, ok := cfg.flagName(l); ok && programCanRegister(l) && rapid.IntRange(0, 9).Draw(t, "prereg") < 4 {
+						c.PreReg = append(c.PreReg, l.Path)
+					}
+				}
+				if len(c.PreReg) == 0 {
+					c.EarlierSet = true
+				}
+			}
+			if c.FlagSet == "literal" {
+				c.Parser = "source" // nothing is registered before Value()
+			}
 		}
 
 		// command line
@@ -383,6 +414,11 @@ func genC12(src string) func(t *rapid.T) C12Case {
 			c.TermAt = rapid.IntRange(badAt+1, len(args)).Draw(t, "term_at")
 		}
 		c.Args = args
+		if badAt >= 0 && c.FlagSet == "cmdline" {
+			// flag.Parse() on a ContinueOnError stand-in for flag.CommandLine
+			// swallows the parse error a real (ExitOnError) process dies of
+			c.Parser = "program"
+		}
 		return c
 	}
 }
@@ -485,6 +521,9 @@ type c12Source struct {
 	flags map[string]regFlag
 	value func(*dials.Type) (reflect.Value, error)
 	parse func() error // the program's own Parse of the registered FlagSet
+	list  func()       // re-reads flags from the FlagSet (lazy registration)
+	// earlierValue asks the earlier dials Set on the same FlagSet for its value
+	earlierValue func(*dials.Type) (reflect.Value, error)
 }
 
 func protect(f func()) (msg string) {
@@ -500,7 +539,52 @@ func protect(f func()) (msg string) {
 	return ""
 }
 
-func newC12Source(src, parser string, cfg nameCfg, tmpl any, argv []string) (*c12Source, error) {
+// programCanRegister reports whether a program can register leaf l's flag
+// with the flag package's own typed functions and a compatible type.
+func programCanRegister(l leaf) bool {
+	switch l.Class {
+	case clBool, clInt, clUint, clFloat, clString, clDuration:
+		return true
+	}
+	return false
+}
+
+// programRegister registers name on fs the way a program would, with def as
+// its default.
+func programRegister(fs *flag.FlagSet, name string, l leaf, def reflect.Value) {
+	switch l.Class {
+	case clBool:
+		fs.Bool(name, def.Bool(), "program flag")
+	case clInt:
+		if l.T.Kind() == reflect.Int64 {
+			fs.Int64(name, def.Int(), "program flag")
+		} else {
+			fs.Int(name, int(def.Int()), "program flag")
+		}
+	case clUint:
+		if k := l.T.Kind(); k == reflect.Uint64 || k == reflect.Uintptr {
+			fs.Uint64(name, def.Uint(), "program flag")
+		} else {
+			fs.Uint(name, uint(def.Uint()), "program flag")
+		}
+	case clFloat:
+		fs.Float64(name, def.Float(), "program flag")
+	case clString:
+		fs.String(name, def.String(), "program flag")
+	case clDuration:
+		fs.Duration(name, time.Duration(def.Int()), "program flag")
+	}
+}
+
+// c12Shared describes a non-private FlagSet (standard flag source).
+type c12Shared struct {
+	mode    string // cmdline | literal
+	prereg  func(fs *flag.FlagSet)
+	earlier bool
+	tmplA   any // template of the earlier set
+}
+
+func newC12Source(src, parser string, cfg nameCfg, tmpl any, argv []string, sh *c12Shared) (*c12Source, error) {
 	var tagEnc, fieldEnc caseconversion.EncodeCasingFunc
 	switch cfg.Tag {
 	case "kebab":
@@ -558,14 +642,45 @@ func newC12Source(src, parser string, cfg nameCfg, tmpl any, argv []string) (*c1
 	} else {
 		nc = &dflag.NameConfig{FieldNameEncodeCasing: fieldEnc, TagEncodeCasing: tagEnc}
 	}
-	s, err := dflag.NewSetWithArgs(nc, tmpl, argv)
+	var s, earlier *dflag.Set
+	var err error
+	switch {
+	case sh == nil:
+		s, err = dflag.NewSetWithArgs(nc, tmpl, argv)
+	case sh.mode == "cmdline":
+		// flag.CommandLine / os.Args have been swapped by the caller
+		flag.CommandLine.SetOutput(io.Discard)
+		sh.prereg(flag.CommandLine)
+		if sh.earlier {
+			if earlier, err = dflag.NewCmdLineSet(nc, sh.tmplA); err != nil {
+				return nil, err
+			}
+		}
+		s, err = dflag.NewCmdLineSet(nc, tmpl)
+	default: // literal
+		fs := flag.NewFlagSet("prog", flag.ContinueOnError)
+		fs.SetOutput(io.Discard)
+		sh.prereg(fs)
+		pf := func() error { return fs.Parse(argv) }
+		if sh.earlier {
+			earlier = &dflag.Set{Flags: fs, ParseFunc: pf, NameCfg: nc}
+		}
+		s = &dflag.Set{Flags: fs, ParseFunc: pf, NameCfg: nc}
+	}
 	if err != nil {
 		return nil, err
 	}
 	s.Flags.SetOutput(io.Discard)
 	out.parse = func() error { return s.Flags.Parse(argv) }
-	s.Flags.VisitAll(func(f *flag.Flag) { out.flags[f.Name] = regFlag{Def: f.DefValue} })
+	out.list = func() {
+		out.flags = map[string]regFlag{}
+		s.Flags.VisitAll(func(f *flag.Flag) { out.flags[f.Name] = regFlag{Def: f.DefValue} })
+	}
+	out.list()
 	out.value = func(t *dials.Type) (reflect.Value, error) { return s.Value(ctx, t) }
+	if earlier != nil {
+		out.earlierValue = func(t *dials.Type) (reflect.Value, error) { return earlier.Value(ctx, t) }
+	}
 	return out, nil
 }
 
@@ -587,6 +702,21 @@ func runC12(c C12Case) vrt.Verdict {
 	}
 	if parser != "source" && parser != "program" && !(parser == "flagset" && c.Source == "pflag") {
 		return vrt.Discardf("unknown parser")
+	}
+	switch c.FlagSet {
+	case "":
+		if len(c.PreReg) > 0 || c.EarlierSet {
+			return vrt.Discardf("nothing can be registered first on a private FlagSet")
+		}
+	case "cmdline", "literal":
+		if c.Source != "flag" {
+			return vrt.Discardf("shared FlagSets are generated for the standard flag source only")
+		}
+		if c.FlagSet == "literal" && parser != "source" {
+			return vrt.Discardf("a literal Set registers inside Value(); the program cannot parse first")
+		}
+	default:
+		return vrt.Discardf("unknown flagset mode")
 	}
 	T, err := c.Shape.Build()
 	if err != nil {
@@ -742,13 +872,69 @@ func runC12(c C12Case) vrt.Verdict {
 	pt := ptrify.Pointerify(T, template.Elem())
 
 	where := func() string {
-		return fmt.Sprintf("[%s source, parsed by the %s, name config %s, argv %q]", c.Source, parser, c.NameCfg, argv)
+		fsDesc := ""
+		if c.FlagSet != "" {
+			fsDesc = fmt.Sprintf(", %s FlagSet with flags already registered by the program for %q, earlier dials Set on it: %v", c.FlagSet, c.PreReg, c.EarlierSet)
+		}
+		return fmt.Sprintf("[%s source, parsed by the %s%s, name config %s, argv %q]", c.Source, parser, fsDesc, c.NameCfg, argv)
+	}
+
+	// a non-private FlagSet: some flag names exist before the set under test registers
+	var shared *c12Shared
+	if c.FlagSet != "" {
+		if hasBad && badParsed && c.FlagSet == "cmdline" && parser != "program" {
+			return vrt.Discardf("flag.Parse() on the stand-in for flag.CommandLine swallows parse errors")
+		}
+		type pre struct {
+			name string
+			l    leaf
+		}
+		var pres []pre
+		for _, p := range c.PreReg {
+			l, ok := byPath[p]
+			if !ok || !programCanRegister(l) {
+				return vrt.Discardf("the program cannot register this leaf's flag")
+			}
+			n, ok := cfg.flagName(l)
+			if !ok {
+				return vrt.Discardf("pre-registered leaf has no flag")
+			}
+			pres = append(pres, pre{n, l})
+		}
+		shared = &c12Shared{mode: c.FlagSet, earlier: c.EarlierSet, tmplA: b.Defaults(d).Interface()}
+		shared.prereg = func(fs *flag.FlagSet) {
+			for _, p := range pres {
+				def := shape.FieldByPath(template.Elem(), p.l.Path)
+				if !def.IsValid() {
+					def = reflect.Zero(p.l.T)
+				}
+				programRegister(fs, p.name, p.l, def)
+			}
+		}
+		labelSet["flagset="+c.FlagSet] = true
+		if c.EarlierSet {
+			labelSet["earlier-set-on-flagset"] = true
+		}
+		for _, p := range c.PreReg {
+			if _, given := flagVal[p]; given {
+				labelSet["program-registered-flag-given"] = true
+			}
+		}
+		if c.EarlierSet && len(flagVal) > 0 {
+			labelSet["flag-shared-with-earlier-set-given"] = true
+		}
+		if c.FlagSet == "cmdline" {
+			oldCL, oldArgs := flag.CommandLine, os.Args
+			defer func() { flag.CommandLine, os.Args = oldCL, oldArgs }()
+			flag.CommandLine = flag.NewFlagSet("prog", flag.ContinueOnError)
+			os.Args = append([]string{"prog"}, argv...)
+		}
 	}
 
 	// construct the source
 	var srcObj *c12Source
 	var ctorErr error
-	if msg := protect(func() { srcObj, ctorErr = newC12Source(c.Source, parser, cfg, template.Interface(), argv) }); msg != "" {
+	if msg := protect(func() { srcObj, ctorErr = newC12Source(c.Source, parser, cfg, template.Interface(), argv, shared) }); msg != "" {
 		if goCollision != "" && strings.Contains(msg, "duplicate field") {
 			// Outside the quantifier: the config type does not have distinct
 			// flattened leaf names (AlphaBravo vs Alpha.Bravo flatten to the
@@ -761,34 +947,50 @@ func runC12(c C12Case) vrt.Verdict {
 		return vrt.Violationf("constructor failed: %v %s", ctorErr, where())
 	}
 
-	// (a) registered names are the expected names
-	for n, l := range wantFlags {
-		rf, ok := srcObj.flags[n]
-		if !ok {
-			var have []string
-			for k := range srcObj.flags {
-				have = append(have, k)
+	checkRegistered := func() *vrt.Verdict {
+		// (a) registered names are the expected names
+		for n, l := range wantFlags {
+			rf, ok := srcObj.flags[n]
+			if !ok {
+				var have []string
+				for k := range srcObj.flags {
+					have = append(have, k)
+				}
+				sort.Strings(have)
+				v := vrt.KeyedViolationf("flag-name", "leaf %s (%s): expected flag %q is not registered; registered: %q %s", l.Path, l.TypeExpr, n, have, where())
+				return &v
 			}
-			sort.Strings(have)
-			return vrt.KeyedViolationf("flag-name", "leaf %s (%s): expected flag %q is not registered; registered: %q %s", l.Path, l.TypeExpr, n, have, where())
+			if c.Source == "pflag" && rf.Short != l.Short {
+				v := vrt.KeyedViolationf("shorthand", "leaf %s: flag %q has shorthand %q, tag says %q %s", l.Path, n, rf.Short, l.Short, where())
+				return &v
+			}
 		}
-		if c.Source == "pflag" && rf.Short != l.Short {
-			return vrt.KeyedViolationf("shorthand", "leaf %s: flag %q has shorthand %q, tag says %q %s", l.Path, n, rf.Short, l.Short, where())
+		for n := range srcObj.flags {
+			if _, ok := wantFlags[n]; !ok {
+				v := vrt.KeyedViolationf("flag-name", "unexpected flag %q registered (no leaf has that name) %s", n, where())
+				return &v
+			}
 		}
+		if c.FlagSet == "literal" {
+			// a literal Set has no template: its flags advertise zero values
+			return nil
+		}
+		// (b) advertised defaults are the template's values
+		for n, l := range wantFlags {
+			want := shape.FieldByPath(template.Elem(), l.Path)
+			if !want.IsValid() {
+				want = reflect.Zero(l.T) // below a nil pointer struct
+			}
+			if d := defaultMatches(l, srcObj.flags[n].Def, want, c.Source); d != "" {
+				v := vrt.KeyedViolationf("default", "leaf %s (%s) flag %q: %s %s", l.Path, l.TypeExpr, n, d, where())
+				return &v
+			}
+		}
+		return nil
 	}
-	for n := range srcObj.flags {
-		if _, ok := wantFlags[n]; !ok {
-			return vrt.KeyedViolationf("flag-name", "unexpected flag %q registered (no leaf has that name) %s", n, where())
-		}
-	}
-	// (b) advertised defaults are the template's values
-	for n, l := range wantFlags {
-		want := shape.FieldByPath(template.Elem(), l.Path)
-		if !want.IsValid() {
-			want = reflect.Zero(l.T) // below a nil pointer struct
-		}
-		if d := defaultMatches(l, srcObj.flags[n].Def, want, c.Source); d != "" {
-			return vrt.KeyedViolationf("default", "leaf %s (%s) flag %q: %s %s", l.Path, l.TypeExpr, n, d, where())
+	if c.FlagSet != "literal" {
+		if v := checkRegistered(); v != nil {
+			return *v
 		}
 	}
 	for _, l := range leaves {
@@ -831,6 +1033,21 @@ func runC12(c C12Case) vrt.Verdict {
 		}
 	}
 
+	// the earlier dials Set on the same FlagSet is asked first
+	if srcObj.earlierValue != nil {
+		var eErr error
+		if msg := protect(func() { _, eErr = srcObj.earlierValue(dials.NewType(pt)) }); msg != "" {
+			return vrt.KeyedViolationf("value-panic", "Value() of the earlier Set panicked: %s %s", msg, where())
+		}
+		if eErr != nil {
+			if hasBad && badParsed {
+				l := byPath[badPath]
+				return vrt.OK(len(flagVal) > 0, append(keys(labelSet), "out-of-range", "out-of-range:"+l.Class.String(), "out-of-range-at-earlier-set")...)
+			}
+			return vrt.Violationf("Value() of the earlier Set failed on a valid command line: %v %s", eErr, where())
+		}
+	}
+
 	// Value(), as dials.Config calls it
 	var got reflect.Value
 	var valErr error
@@ -850,6 +1067,13 @@ func runC12(c C12Case) vrt.Verdict {
 			}
 		}
 		return vrt.KeyedViolationf("value-panic", "Value() panicked: %s %s", msg, where())
+	}
+
+	if c.FlagSet == "literal" && valErr == nil {
+		srcObj.list()
+		if v := checkRegistered(); v != nil {
+			return *v
+		}
 	}
 
 	// (d) an out-of-range literal is an error
@@ -993,6 +1217,7 @@ func keys(m map[string]bool) []string {
 
 const c12Rule = "config struct types from the shape grammar restricted to flag-supported leaves (bool, all integer widths, floats, complex, string, time.Duration, time.Time, text-unmarshalable types, []string, integer slices, map[string]string, map[string][]string, map[string]struct{}, named scalars) plus a few unsupported bystander leaves and skipped fields, nested through structs, pointer structs and embedded structs (depth<=3, <=6 fields per struct); `dials` tags at any level, the source's own name tag (or \"-\") and, for pflag, shorthand tags on some leaves; template defaults and a lower and a higher static layer from per-leaf seeds; one of eleven name configs (default, library encoders, harness-defined encoders); " +
 	"who parses is drawn too: in two thirds of the cases the source parses inside Value() (NewSetWithArgs); otherwise the harness acts as a program that parses first — it calls Flags.Parse(argv) on the FlagSet NewSetWithArgs registered its flags in (both packages) or, for pflag, owns the FlagSet, hands it to NewSetWithFlagSet / NewDefaultSetWithFlagSet and parses it — after the constructor and before Value(); the expected values are the same (every occurrence accumulates exactly once); " +
+	"for the standard flag source the FlagSet is drawn as well: private (NewSetWithArgs) in two thirds of the cases, otherwise one on which some of the leaves' flag names ALREADY exist when the set under test registers its flags — NewCmdLineSet on flag.CommandLine (swapped with os.Args for a fresh FlagSet during the case and restored) or a &Set{Flags,ParseFunc,NameCfg} literal that registers lazily inside Value(); the existing flags come from the program (a drawn subset of the bool/integer/float/string/duration leaves registered with the flag package's own typed functions) and/or from an earlier dials Set over the same config type built on the same FlagSet and asked for its value first; the expected values of the set under test are exactly those of a private FlagSet (a flag that already existed still sets its leaf); " +
 	"a command line rendered by the harness: any subset of flags, 1..3 occurrences each in any order (collection flags: in a fifth of the cases only explicitly empty occurrences `-f=` / `-f \"\"` over a template default made non-empty, in another fifth empty occurrences mixed with non-empty ones), -f=v / -f v / bare and =value bool forms, one or two dashes (flag) or long/shorthand forms (pflag), number bases, quoting styles, optionally a `--` terminator and, in a quarter of the cases, one literal just outside a leaf type's range. " +
 	"Oracle: registered flag names equal the names known by construction (source tag verbatim, else dials tags / field-name words along the path joined by the tag encoder; untagged embedded structs contribute nothing); every advertised default reads back (harness parsers) as the template's value; Value() sets exactly the leaves whose flag appeared before `--`, scalars to the last value, collections to first-occurrence-replaces-then-accumulate (an empty occurrence is an occurrence: it replaces the default like any first occurrence and adds nothing later, so only-empty occurrences yield the empty non-nil collection for every helper: []string of both packages, signed and unsigned integer slices, sets, map[string]string, map[string][]string); stacked with VerifCompose between the two layers every leaf is higher, else flag, else lower, else default; the out-of-range literal makes Value() fail (or already the program's own Parse, when the program parses). " +
 	"non-trivial = at least one flag given and at least one not given on flag-bearing leaves that the lower layer sets; distinct = distinct case JSON"
@@ -1002,6 +1227,9 @@ var c12Assumptions = []string{
 	"explicit FlagSets through NewSetWithArgs (and pflag's NewSetWithFlagSet / NewDefaultSetWithFlagSet); flag.CommandLine / os.Args are never touched, so the NewCmdLineSet + flag.Parse() flow is represented by pre-parsing the explicit FlagSet",
 	"a program pre-parses only FlagSets whose flags the constructor has already registered (all constructors used here register eagerly; a literal &Set{} registers lazily inside Value() and cannot be pre-parsed)",
 	"two leaves never share a flag name (a second registration of a name is skipped by design)",
+	"flags that exist before the set registers are generated for the standard flag source only: the unmodified pflag source does not bind a leaf to a flag it did not register itself (its Value() looks values up in a table filled only for its own registrations), reported separately",
+	"a literal &Set{} has no template, so its flags advertise zero values; advertised defaults are not compared there",
+	"on the ContinueOnError stand-in for flag.CommandLine, flag.Parse() swallows parse errors a real process exits on; cases with an out-of-range literal on it let the program parse",
 	"the out-of-range literal is the last occurrence of its flag (the standard flag source checks the narrowed range on the final value only)",
 	"string elements of collection flags are spelled bare (plain identifiers), raw-quoted or Go-quoted; the collection syntax itself belongs to C15",
 	"field names are assembled from a vocabulary whose decoding is unambiguous (C19 owns the decoder)",
